@@ -277,6 +277,9 @@ func init() {
 			if s, ok, err := mixReplay(raw); ok {
 				return s, err
 			}
+			if s, ok, err := mixChainReplay(raw); ok {
+				return s, err
+			}
 			var r c12Replay
 			json.Unmarshal(raw, &r)
 			_, msg, known := c12Check(r.Ops, r.Big)
@@ -294,6 +297,7 @@ func runC12(w *vx.W) {
 		mixLen = 4
 	}
 	mixFamily(w, mixLen)
+	c10MixChains(w) // the same words as members of a chain: nothing may cross a file boundary
 	T := uint32(c12T)
 	var alpha []c12Op
 	for _, v := range []uint32{T, T + 1, T + 31, T + 32, T | 31, 0xFFFFFFFE, 0xFFFFFFFF, 0x10000000} {
